@@ -31,9 +31,12 @@ KINDS = {
     "M": {"files": {"m.rs": "fn  m( ){\nlet v = vec![1,2,3];}\n", "rustfmt.toml": "max_width = 30\nhard_tabs = true\n"}},
     "T": {"files": {"t.rs": "mod sub;\nfn  t( ){}\n", "sub.rs": "pub fn  s( ){}\n"}},
     "B": {"files": {"b.rs": "fn  b( ){}\n", "rustfmt.toml": "max_width = \"x\"\n"}},
+    # local configurations that differ in their `ignore` list: I ignores its own file, J ignores something else
+    "I": {"files": {"i.rs": "fn  i( ){\nlet z=3;}\n", "rustfmt.toml": "ignore = [\"i.rs\"]\n"}},
+    "J": {"files": {"j.rs": "fn  j( ){\nlet w=4;}\n", "rustfmt.toml": "ignore = [\"elsewhere.rs\"]\ntab_spaces = 3\n"}},
     "N": {"files": {}},       # a path that does not exist
 }
-ROOT = {"F": "f.rs", "U": "u.rs", "P": "p.rs", "L": "l.rs", "M": "m.rs", "T": "t.rs", "B": "b.rs", "N": "nothere.rs", "X": "x.rs"}
+ROOT = {"F": "f.rs", "U": "u.rs", "P": "p.rs", "L": "l.rs", "M": "m.rs", "T": "t.rs", "B": "b.rs", "N": "nothere.rs", "X": "x.rs", "I": "i.rs", "J": "j.rs"}
 ANSI = re.compile(r"\x1b\[[0-9;]*m|\x1b\(B")
 
 
@@ -110,7 +113,7 @@ def run(tier, seed, replay):
             e.update({"LANG": "tr_TR.UTF-8", "LC_ALL": "C", "TZ": "Pacific/Kiritimati", "COLUMNS": "20", "NO_COLOR": "1", "CARGO": "/nonexistent"})
         return e
 
-    sets = [["U"], ["F", "U"], ["U", "P", "L"], ["F", "U", "P", "L"], ["T", "L", "M"], ["L", "M", "N"], ["U", "X", "F"], ["U", "B", "F"]]
+    sets = [["I", "U", "J"], ["J", "I"], ["U"], ["F", "U"], ["U", "P", "L"], ["F", "U", "P", "L"], ["T", "L", "M"], ["L", "M", "N"], ["U", "X", "F"], ["U", "B", "F"]]
     if tier != "quick":
         pool = ["F", "U", "P", "L", "M", "T", "N", "X"]
         for _ in range(10):
@@ -428,7 +431,7 @@ def run(tier, seed, replay):
         "evaluations": len(jobs) + stdin_n + 2 + len(vh_cases),
         "distinct_nontrivial": len(nontrivial),
         "exhaustive": True,
-        "rule": "%d sets of 1..4 inputs from {formatted, unformatted, not parsable (unclosed delimiter; unterminated string), two different local rustfmt.toml, module tree of 2 files, missing path, malformed local rustfmt.toml}; per set and mode {files, --check, --emit stdout}: every input alone, EVERY order (<= 24), the identity order from another working directory with absolute paths, with a scrambled environment (other HOME, TERM unset, RUSTFMT_LOG, LANG, LC_ALL, TZ, COLUMNS, NO_COLOR), on a second fresh copy, with the first input named twice; files mode twice in a row on the same tree; 6 inputs by path and on standard input; make_backup in a discovered rustfmt.toml; in-process: one Session over every order of %d texts (two with override_config) x {stdout, json, checkstyle}. an 8-file crate x {stdout, check, json, checkstyle, -l, -v} x 6 fresh processes (byte streams must be equal). Compared: bytes of every file / printed text per file / set of reported files, stderr lines as multisets, exit status = max of the single statuses" % (len(sets), len(texts)),
+        "rule": "%d sets of 1..4 inputs from {formatted, unformatted, not parsable (unclosed delimiter; unterminated string), two different local rustfmt.toml, two local rustfmt.toml with different ignore lists (one ignoring its own file), module tree of 2 files, missing path, malformed local rustfmt.toml}; per set and mode {files, --check, --emit stdout}: every input alone, EVERY order (<= 24), the identity order from another working directory with absolute paths, with a scrambled environment (other HOME, TERM unset, RUSTFMT_LOG, LANG, LC_ALL, TZ, COLUMNS, NO_COLOR), on a second fresh copy, with the first input named twice; files mode twice in a row on the same tree; 6 inputs by path and on standard input; make_backup in a discovered rustfmt.toml; in-process: one Session over every order of %d texts (two with override_config) x {stdout, json, checkstyle}. an 8-file crate x {stdout, check, json, checkstyle, -l, -v} x 6 fresh processes (byte streams must be equal). Compared: bytes of every file / printed text per file / set of reported files, stderr lines as multisets, exit status = max of the single statuses" % (len(sets), len(texts)),
         "samples": jobs[:2] + jobs[len(jobs) // 2:len(jobs) // 2 + 2] + jobs[-1:],
         "correspondence_disagreements": len(disagreements),
         "traces_validated_against_impl": validated,
